@@ -111,9 +111,18 @@ def grep_gate():
     return problems
 
 
+COQPROJECT_HEAD = ("-Q theories FL\n"
+                   "-arg -w -arg -notation-overridden,-deprecated-hint-without-locality,-deprecated-instance-without-locality\n")
+
+
 def coq_makefile():
+    """_CoqProject lists every theories/**/*.v (generated files included); Makefile is regenerated when it changes."""
     mk = os.path.join(COQ, "Makefile")
     cp = os.path.join(COQ, "_CoqProject")
+    files = sorted(os.path.relpath(f, COQ) for f in glob.glob(os.path.join(COQ, "theories", "**", "*.v"), recursive=True))
+    want = COQPROJECT_HEAD + "\n".join(files) + "\n"
+    if not os.path.exists(cp) or open(cp).read() != want:
+        open(cp, "w").write(want)
     if not os.path.exists(mk) or os.path.getmtime(mk) < os.path.getmtime(cp):
         sh(["coq_makefile", "-f", "_CoqProject", "-o", "Makefile"], cwd=COQ)
 
@@ -292,6 +301,12 @@ def load_known(pid):
     return [k for k in json.load(open(p)) if k.get("property") == pid]
 
 
+def coqmake_cli(targets):
+    ok, out = coq_build(targets)
+    print(out[-6000:])
+    sys.exit(0 if ok else 1)
+
+
 def sig_matches(entry, sig):
     if "signature" in entry and entry["signature"] == sig:
         return True
@@ -311,6 +326,8 @@ def write_replay(pid, name, doc):
 
 def main():
     args = sys.argv[1:]
+    if args and args[0] == "coqmake":
+        coqmake_cli(args[1:])
     if not args or args[0] not in PROPS:
         print("usage: check.py <%s> [--tier quick|thorough] [--replay FILE]" % "|".join(sorted(PROPS)))
         sys.exit(2)
